@@ -2,7 +2,7 @@
 use crate::util::Witness;
 use sea_query::{Token, Tokenizer};
 
-const ALPHA: &[char] = &['a', '1', '_', '$', ' ', '\'', '"', '`', '[', ']', '\\', '?', 'é'];
+const ALPHA: &[char] = &['a', '1', '_', '$', ' ', '\'', '"', '`', '[', ']', '\\', '?', 'é', '\u{a0}', '\u{663}'];
 
 fn delim_start(c: char) -> bool { matches!(c, '`' | '[' | '\'' | '"') }
 fn end_for(s: char, c: char) -> bool { matches!((s, c), ('`', '`') | ('[', ']') | ('\'', '\'') | ('"', '"')) }
@@ -59,6 +59,6 @@ pub fn check_one(s: &str) -> Option<Witness> {
 
 pub fn search(_obl: &str) -> Option<Witness> {
     let mut found = None;
-    crate::util::strings(ALPHA, 5, |s| { if let Some(w) = check_one(s) { found = Some(w); true } else { false } });
+    crate::util::strings(ALPHA, 6, |s| { if let Some(w) = check_one(s) { found = Some(w); true } else { false } });
     found
 }
